@@ -24,7 +24,7 @@ def covering(rng, n_extra=0):
     from harness.trainrun import all_configs
 
     allc = all_configs()
-    keys = ("model", "fw", "wandb", "ckpt", "structured")
+    keys = ("model", "fw", "wandb", "ckpt", "structured", "lowmem")
     need = {(a, c[a], b, c[b]) for c in allc for i, a in enumerate(keys) for b in keys[i + 1:]}
     chosen = []
     pool = allc[:]
@@ -40,7 +40,7 @@ def covering(rng, n_extra=0):
 
 def to_trace(k, o):
     job = o["job"]
-    cfg = {k_: job[k_] for k_ in ("model", "fw", "wandb", "ckpt", "structured")}
+    cfg = {k_: job.get(k_, False) for k_ in ("model", "fw", "wandb", "ckpt", "structured", "lowmem")}
     return dict(id=k, cfg=cfg, states=[dict(ev=s["ev"], files=s["files"], keyed=s["keyed"]) for s in o["states"]],
                 fin=dict(raised=bool(o["raised"]), initial_equal=(o["initial_diff"] == []), final_equal=(o["final_diff"] == [])))
 
@@ -64,7 +64,7 @@ def run(tier, seed, only=None):
     res = Result("C19")
     rng = random.Random(seed)
     r = check_model("MC_TrainRun", MC % "intended", timeout=300, require_actions=("Step", "Crash"), workers=4)
-    res.add_mc("MC_TrainRun intended ordering, 64 configurations, crash at every step", r)
+    res.add_mc("MC_TrainRun intended ordering, 96 configurations (64 + 32 low-memory fallbacks), crash at every step", r)
     if r.violation:
         raise TLCError("TrainRun intended ordering violates %s" % (r.violation,))
     rc = check_model("MC_TrainRun", MC % "as_coded", timeout=300, expect_violation=("invariant", "NoKeyOnDisk"), workers=4)
@@ -86,6 +86,7 @@ def run(tier, seed, only=None):
     res.clause("disk_states_checked", sum(len(t["states"]) for t in traces))
     res.clause("runs_with_wandb", sum(1 for o in obs if o["job"]["wandb"]))
     res.clause("runs_structured", sum(1 for o in obs if o["job"]["structured"]))
+    res.clause("runs_low_memory_fallback", sum(1 for o in obs if o["job"].get("lowmem")))
     res.clause("runs_np_chunks", sum(1 for o in obs if o["job"]["fw"] != "torch_dataset"))
     res.coverage.update(evaluations=len(traces), distinct_nontrivial=len({str(sorted(o["job"].items())) for o in obs if len(o["states"]) >= 4}),
                         exhaustive=(tier == "thorough" and only is None),
